@@ -647,16 +647,16 @@ func (g *Global) replay(r *Result, prop, dir string) replayOut {
 	}
 	want := expectedPanic(r.Ob)
 	var src bytes.Buffer
-	fmt.Fprintf(&src, "package %s\n\nimport (\n\t\"fmt\"\n\t\"math\"\n\t\"os\"\n\t\"reflect\"\n\t\"runtime\"\n\t\"testing\"\n\t\"time\"\n\t\"unsafe\"\n", fn.Pkg.Pkg.Name())
+	fmt.Fprintf(&src, "package %s\n\nimport (\n\t\"fmt\"\n\t\"math\"\n\t\"os\"\n\t\"reflect\"\n\t\"runtime\"\n\t\"runtime/debug\"\n\t\"testing\"\n\t\"time\"\n\t\"unsafe\"\n", fn.Pkg.Pkg.Name())
 	for path, name := range rp.imports {
-		if path == "fmt" || path == "math" || path == "os" || path == "reflect" || path == "runtime" || path == "testing" || path == "time" || path == "unsafe" {
+		if path == "fmt" || path == "math" || path == "os" || path == "reflect" || path == "runtime" || path == "runtime/debug" || path == "testing" || path == "time" || path == "unsafe" {
 			continue
 		}
 		fmt.Fprintf(&src, "\t%s %q\n", name, path)
 	}
 	fmt.Fprintf(&src, ")\n\nvar _ = math.Pi\nvar _ = fmt.Sprint\nvar _ = time.Now\n%s\n", replayRuntime)
 	fmt.Fprintf(&src, "// replay of obligation %s\nfunc TestVerifReplay(t *testing.T) {\n", r.Ob.Name)
-	fmt.Fprintf(&src, "\tdone := make(chan string, 1)\n\tgo func() {\n\t\tvar ms0, ms1 runtime.MemStats\n\t\tinb := 0\n\t\tdefer func() {\n\t\t\tif r := recover(); r != nil {\n\t\t\t\tdone <- fmt.Sprint(\"PANIC: \", r)\n\t\t\t\treturn\n\t\t\t}\n\t\t\truntime.ReadMemStats(&ms1)\n\t\t\tdone <- fmt.Sprintf(\"RETURNED alloc=%%d input=%%d\", ms1.TotalAlloc-ms0.TotalAlloc, inb)\n\t\t}()\n")
+	fmt.Fprintf(&src, "\tdone := make(chan string, 1)\n\tgo func() {\n\t\tvar ms0, ms1 runtime.MemStats\n\t\tinb := 0\n\t\tdefer func() {\n\t\t\tif r := recover(); r != nil {\n\t\t\t\tst := []byte(debug.Stack())\n\t\t\t\tfor i := range st {\n\t\t\t\t\tif st[i] == '\\n' || st[i] == '\\t' {\n\t\t\t\t\t\tst[i] = ' '\n\t\t\t\t\t}\n\t\t\t\t}\n\t\t\t\tdone <- fmt.Sprint(\"PANIC: \", r, \" STACK: \", string(st))\n\t\t\t\treturn\n\t\t\t}\n\t\t\truntime.ReadMemStats(&ms1)\n\t\t\tdone <- fmt.Sprintf(\"RETURNED alloc=%%d input=%%d\", ms1.TotalAlloc-ms0.TotalAlloc, inb)\n\t\t}()\n")
 	src.Write(rp.code.Bytes())
 	for i, p := range plans {
 		if sl, ok := p.ty.Underlying().(*types.Slice); ok {
@@ -695,7 +695,22 @@ func (g *Global) replay(r *Result, prop, dir string) replayOut {
 		outcome = "OOM: the Go runtime ran out of memory under the 4 GiB address-space limit of the replay"
 	}
 	confirmed := false
+	// A panic confirms a safety obligation only if it happens where the obligation is: the stack of the
+	// panic must contain the obligation's source position (a replay input is partial -- interfaces of
+	// unknown dynamic type stay nil -- and can make the function panic somewhere else for that reason).
+	atPosition := true
+	if i := strings.Index(outcome, " STACK: "); i >= 0 {
+		stack := outcome[i:]
+		outcome = outcome[:i]
+		pos := r.Ob.Pos
+		if j := strings.LastIndex(pos, "/"); j >= 0 && !strings.Contains(stack, "/"+pos+" ") {
+			pos = pos[j+1:]
+		}
+		atPosition = pos == "" || strings.Contains(stack, "/"+pos+" ")
+	}
 	switch {
+	case strings.HasPrefix(outcome, "PANIC") && !atPosition:
+		fmt.Fprintf(&out, "replay outcome on the real code: %s — but not at %s: the (partial) replay input makes the function panic elsewhere; this does not exhibit the failed obligation\n", outcome, r.Ob.Pos)
 	case r.Ob.Kind == "alloc" && strings.HasPrefix(outcome, "OOM"):
 		confirmed = true
 		fmt.Fprintf(&out, "replay outcome on the real code: %s — CONFIRMED (allocation obligation)\n", outcome)
